@@ -258,7 +258,7 @@ func c14Eviction(p *Prog, r *Report) {
 	for _, m := range p.Methods(tm) {
 		for _, b := range m.Blocks {
 			for _, in := range b.Instrs {
-				if mu, ok := in.(*ssa.MapUpdate); ok && isFieldLoad(mu.Map, tm, "elements") {
+				if mu, ok := in.(*ssa.MapUpdate); ok && isFieldLoad(mu.Map, tm, ttlElements(tm)) {
 					set = m
 				}
 			}
@@ -319,14 +319,15 @@ func c14Eviction(p *Prog, r *Report) {
 				return false
 			}
 			lk, ok := ex.Tuple.(*ssa.Lookup)
-			return ok && isFieldLoad(lk.X, tm, "elements") && stripConv(lk.Index) == ssa.Value(set.Params[1])
+			return ok && isFieldLoad(lk.X, tm, ttlElements(tm)) && stripConv(lk.Index) == ssa.Value(set.Params[1])
 		}) {
 			if OnlyViaEdge(set, call, t.False) {
 				okNew = true
 			}
 		}
 		okCap := false
-		want := ParseLin("len(fld(p0).elements) - fld(p0).capacity", ">=")
+		capF := fieldByRole(tm, "capacity", isPlainBasic(types.Int), nil)
+		want := ParseLin("len(fld(p0)."+ttlElements(tm)+") - fld(p0)."+capF, ">=")
 		for _, e := range edgesImplying(p, set, want) {
 			if OnlyViaEdge(set, call, e) {
 				okCap = true
@@ -482,4 +483,13 @@ func mutantsC14() []Mutant {
 		{Name: "clientip-canonicalised-unchecked", File: "utils/source.go", Old: "\treturn host, 1, nil", New: "\treturn net.ParseIP(host).String(), 1, nil", Expect: "C14.R5"},
 		{Name: "pq-update-in-place", File: "internal/holsterv4/collections/priority_queue.go", Old: "\theap.Remove(p.impl, el.index)\n\tel.Priority = priority\n\theap.Push(p.impl, el)\n", New: "\tif priority >= el.Priority && el.index >= (p.impl.Len()-1)/2 {\n\t\tel.Priority = priority\n\t\treturn\n\t}\n\theap.Remove(p.impl, el.index)\n\tel.Priority = priority\n\theap.Push(p.impl, el)\n", Expect: "C14.R3"},
 	}
+}
+
+
+// ttlElements: the key -> element map of the TTL map (by name, else its only map-typed field).
+func ttlElements(tm *types.Named) string {
+	if f := fieldByRole(tm, "elements", func(t types.Type) bool { _, ok := t.Underlying().(*types.Map); return ok }, nil); f != "" {
+		return f
+	}
+	return "elements"
 }
